@@ -271,7 +271,7 @@ def justify(eng, fn, guard, mc):
         for lab in labs:
             info = ft.label_info.get(lab) or eng.label_info.get(lab) or {}
             var = var or info.get("var")
-        akey = "%s|%s" % (fn.base, var or "?")
+        akey = strip_targs(fn.cls or fn.base)
         if akey in G1_ALLOW:
             return True, "scale 1 item count, reviewed: " + G1_ALLOW[akey]
         return False, "`%s` compares an item count (not the size operand of any raw read) with the remaining " \
